@@ -626,7 +626,7 @@ theorem step_coreN (sp : Spec) (hcf : CmdFree sp) (w : World) (e : Event) (h : C
           · split
             · exact same _ _
             · split
-              · exact same _ _
+              · exact checkAffected_coreN sp _ t (same _ _)
               · split
                 · exact same _ _
                 · exact coreN_rows w _ _ w.wf w.crashed h (coreN_setTask w r _ h hrm rfl rfl)
